@@ -563,6 +563,10 @@ func declSource(d *DcDecl, cur string, mainPath string) string {
 		for _, i := range d.Ifaces {
 			q = append(q, mainPath+"."+i)
 		}
+		if (len(d.Name)+len(d.Ifaces)+len(d.Fields))%2 == 0 {
+			// an empty value is skipped, and the values after it still count
+			tags = append(tags, "// +k8s:deepcopy-gen:interfaces=")
+		}
 		tags = append(tags, "// +k8s:deepcopy-gen:interfaces="+strings.Join(q, ","))
 	}
 	if d.Detached && len(tags) > 0 {
